@@ -979,3 +979,37 @@ Proof.
     rewrite Hf, stored_removed by exact Hnd. rewrite N.eqb_refl, Ek. reflexivity.
   - cbn [put_store found set_found]. rewrite inner_touch. rewrite <- (amem_cong (KService s) (KService k) _ Ek). unfold amem. rewrite Ea. reflexivity.
 Qed.
+
+(* ------------------------------------------------------------------ building blocks of convergence (C04): what a received Offer does *)
+(* an Offer (TTL > 0) for a watched service is recorded, whatever was stored before ... *)
+Theorem offer_recorded X e a s w : GP X w -> F5 w -> from_offer_entry e = Ok s -> (e_ttl e =? 0) = false -> is_watching e w = true ->
+  forall k, fkey s k = true -> stored a k (handle_offer e a w) = true.
+Proof.
+  intros Hg H5 He Ht Hw k Ek. unfold handle_offer. rewrite He, Ht, Hw. cbn [negb].
+  pose proof (g_keys _ _ Hg SFound a) as Hnd. cbn [get_store] in Hnd.
+  rewrite store_refresh_unfold. cbv zeta. cbn [get_store]. rewrite inner_touch.
+  destruct (aget key_eqb (KService s) (inner a (found w))) as [old|] eqn:Ea.
+  - set (w1 := cancel_opt old (put_store SFound (aset N.eqb a (adel key_eqb (KService s) (inner a (found w))) (touch a (found w))) w)).
+    assert (W5 : found w1 = aset N.eqb a (adel key_eqb (KService s) (inner a (found w))) (touch a (found w))) by (unfold w1; destruct old; reflexivity).
+    destruct (tail_stored (e_ttl e) a (KService s) w1) as [_ N2].
+    { rewrite W5, inner_aset, N.eqb_refl. apply nodupE_adel, Hnd. }
+    { rewrite W5. apply nodup_aset_found, nodup_touch, (f5_addrs _ H5). }
+    cbv zeta in N2. rewrite N2, N.eqb_refl. cbn [key_eqb]. fold (fkey s k). rewrite Ek. apply orb_true_r.
+  - change listener_offered with (lst true). destruct (notify_spec true s a (put_store SFound (touch a (found w)) w)) as [Q _]. cbv zeta in Q.
+    set (w1 := notify_service (lst true) s a (put_store SFound (touch a (found w)) w)) in *.
+    assert (Hf1 : found w1 = touch a (found w)) by (rewrite (fq_found _ _ Q); reflexivity).
+    destruct (tail_stored (e_ttl e) a (KService s) w1) as [_ N2].
+    { rewrite Hf1, inner_touch. exact Hnd. }
+    { rewrite Hf1. apply nodup_touch, (f5_addrs _ H5). }
+    cbv zeta in N2. rewrite N2, N.eqb_refl. cbn [key_eqb]. fold (fkey s k). rewrite Ek. apply orb_true_r.
+Qed.
+(* ... and every recording listener registered for it (inside the domain) then has "offered" as its latest notification *)
+Theorem offer_reported X e a s w : GP X w -> F5 w -> from_offer_entry e = Ok s -> (e_ttl e =? 0) = false -> is_watching e w = true ->
+  forall id, tainted id (glog (handle_offer e a w)) = false -> regm id s (handle_offer e a w) = true ->
+  up_l id a s (out (handle_offer e a w)) = true.
+Proof.
+  intros Hg H5 He Ht Hw id Hid Hr.
+  assert (F : F5 (handle_offer e a w)).
+  { unfold handle_offer. rewrite He, Ht, Hw. cbn [negb]. eapply F5_store_refresh_found; eauto. }
+  rewrite (f5_up _ F id a s Hid), Hr, (offer_recorded X e a s w Hg H5 He Ht Hw s (fkey_refl s)). reflexivity.
+Qed.
